@@ -274,7 +274,11 @@ func c19Length(ctx *core.Ctx, c c19Case) {
 	}
 	switch {
 	case c.Len <= c.Limit:
-		if len(rs) != 1 || fmt.Sprint(rs[0].Code) != expectOK && !(c.Pos == "mailline" && rs[0].Code == 250) {
+		// A MAIL line with a very long local-part may be refused for reasons other than the line
+		// length (RFC 5321 4.5.3.1.1): for that position only "refused as too long a line"
+		// (500 and the connection closed) is a violation.
+		lenient := c.Pos == "mailline" && len(rs) == 1 && !(rs[0].Code == 500 && closed)
+		if !lenient && (len(rs) != 1 || fmt.Sprint(rs[0].Code) != expectOK) {
 			fail("C19:short-line-refused:"+c.Pos, fmt.Sprintf("a line of %d octets (limit %d) was answered %s closed=%v, expected %s", c.Len, c.Limit, codes(rs), closed, expectOK), all)
 			return
 		}
